@@ -83,6 +83,21 @@ class UnitTable:
     def accepted(self, spelling):
         return bool(self.derivations(spelling))
 
+    def wrong_case(self):
+        """Letter-case variants of every symbol spelling, prefixed ones included, that no derivation accepts."""
+        out = set()
+        for sp in self.exact:
+            for w in (sp.upper(), sp.lower(), sp.swapcase(), sp.capitalize(), sp[:1].swapcase() + sp[1:]):
+                if w != sp and not self.accepted(w):
+                    out.add(w)
+        return sorted(out)
+
+    def suffix_spellings(self):
+        """Accepted spellings (exact case for symbols, lower case for names) of units that stand after the number."""
+        out = [sp for sp, ds in self.exact.items() if not any(d["prefix"] for d in ds)]
+        out += [sp for sp, ds in self.folded.items() if not any(d["prefix"] for d in ds)]
+        return sorted(sp for sp in out if " " not in sp)
+
     def unambiguous_factor(self, spelling):
         """(declared, factor): declared False when the unit has no conversion factor; factor None when ambiguous."""
         ds = self.derivations(spelling)
